@@ -41,6 +41,10 @@ CHECKS = {
          "The harness is the scheduler of the plotter goroutine of the real v1 and v2 keepers: every move is one API action (single or bulk), one plotter gate release, a scripted plot outcome, or keeper stop/start, and after every move all state queries are read at a quiescent point and checked: flag queries partition the listing, every state change is allowed by the documented table for the event that happened, at most one space plots, a space is plotted or mined only while a request is outstanding, exactly the mining spaces are offered to the miner, completion/abort lead to the documented states. Held = on the (sequence, schedule) pairs explored; the stale-request classes are listed findings.",
          "the gates sit between critical sections where the Go scheduler could preempt anyway; the pending-channel length is read by reflection at quiescent points; scripted plots stand in for real plotting (real plots: C07/C10/C11/C13)",
          "DESIGN.md §3 C09"),
+ "C10": ("fault_enumeration", "crash/stop fault injection at hook points (H1/H2) on the real plotter in child processes, with reopen-and-compare against a reference plot, a bounded-progress monitor counted in loop iterations, and a syscall-order (strace) write-ordering oracle",
+         "Every hook point of both plotting passes x kill / graceful stop x window index, asynchronous kills and up to four interruptions in a row at bit lengths 8-16, each resumed with a different window size (plus files carrying the odd checkpoints older builds left behind); after every interruption the reopened space is checked (never plotted with an incomplete table, nothing below a recorded checkpoint differs from the reference), every resume must finish within a loop-iteration bound and end byte-identical to the reference table. Durability is judged as pwrite/fsync/unlink order in strace traces. The fault space of each explored (key, bit length, window configuration) is enumerated per hook point and occurrence; keys and configurations are sampled.",
+         "SIGKILL cannot lose page cache: power loss is represented by the syscall-order oracle only; bit lengths above 16 and real memory pressure are not exercised; trusts refplot (C07)",
+         "DESIGN.md §3 C10"),
  "C11": ("exploration", "seeded plot-directory/history exploration of the real keeper with hook-gated plotter (H3), per-operation file-system diff oracle, independent reference indexer, strace attribution of unlink/rename/truncate (thorough)",
          "Real keeper, real plot files and a real wallet over seeded plot directories (27 file classes across 1-3 directories) and gated action histories: a full directory listing is compared before and after every operation (only an accepted Delete, the end-of-plot removal of map A and the documented legacy rename may remove or rename plot files), Remove/Delete must be refused while plotting or mining, and every start-up/restart index is judged file by file against an independent reference indexer (header vs name, wallet key and ordinal, duplicates, recorded progress). Held = on the scenarios executed; file creation at start-up is observed, not judged (the statement forbids deletion).",
          "tables of bit length >= 24 are fabricated headers / sparse files, so 'never serves proofs from rejected files' is observed as absence of a proof object; trusts the harness reference indexer (cross-checked against the generator's own expectation in every scenario)",
